@@ -691,7 +691,17 @@ func c08SignatureAttribution(c *Ctx, rule string) {
 					// any other branch in the function apart from the unmarshal error check
 					p := ssax.Path(cd.X)
 					if !strings.Contains(p, "json.Unmarshal(") {
-						ok = false
+						// a test one of whose outcomes never reaches the save (the whole message is refused: a validity
+						// check of the announced signatures) does not make the attribution of what IS saved conditional
+						aborts := false
+						for _, sb := range cd.If.Block().Succs {
+							if len(sb.Instrs) > 0 && !ssax.ReachableFrom(ps, sb.Instrs[0], save[0].(ssa.Instruction), nil, nil) && sb.Instrs[0] != save[0].(ssa.Instruction) {
+								aborts = true
+							}
+						}
+						if !aborts {
+							ok = false
+						}
 					}
 				}
 			}
